@@ -279,6 +279,19 @@ def search(ctx, boost=1, focus=()):
         if kind in ("background_subtraction", "rgbs") and rng.random() < 0.7:
             p["radius_outer"] = float(np.round(rng.uniform(1, 20), 2))
         ctx.oracle_case("ctor", p, run_case("ctor", p))
+    # boundaries of the guards: equality of radii is inconsistent, search equal to the outer radius is consistent
+    for kind in ("circular", "radial_gradient", "background_subtraction", "rgbs"):
+        for radius in (2.0, 3.5, float(np.round(rng.uniform(1.5, 10), 2))):
+            bs = kind in ("background_subtraction", "rgbs")
+            variants = [{"search": radius}, {"search": radius * 0.999}, {"search": radius * 1.25}]
+            if bs:
+                variants += [{"radius_outer": radius}, {"radius_outer": radius, "search": 3 * radius},
+                             {"radius_outer": radius * 1.3, "search": radius * 1.3},
+                             {"radius_outer": radius * 1.3, "search": radius * 1.299}, {"search": radius * 1.5},
+                             {"search": radius * 1.49}, {"radius_outer": radius * 0.9, "search": 3 * radius}]
+            for v in variants:
+                p = {"kind": kind, "radius": radius, **v}
+                ctx.oracle_case("ctor", p, run_case("ctor", p))
     ctx.count("ctor_oracle", 60 * boost)
 
 
